@@ -56,7 +56,10 @@ def gen_case(rng):
         tok = rng.choice(toks)
         gap = rng.choice([1000, 1000, 1_000_000, 5_000_000, 128 * S - 1000, 128 * S, 128 * S + 1, 200 * S])
         if r < 0.18:
-            lines.append("reg %d%s" % (tok, " con" if rng.random() < 0.4 else ""))
+            flavour = rng.random()
+            lines.append("reg %d%s" % (tok, " con" if flavour < 0.4 else " self" if flavour < 0.5 else ""))
+            if flavour >= 0.4 and flavour < 0.5:
+                kinds.add("callback-cancels-own-context")
             if tok in regs and regs[tok][1] != "gone":
                 kinds.add("dup-token-reg")
             else:
@@ -140,6 +143,15 @@ def dl(line):
     return "reg " + f[1] if f[0] == "reg" and len(f) == 3 else line
 
 
+def jl_line(line):
+    """the line as the judge sees it: as dl(), but `reg <tok> self` is kept (the judge accepts either outcome of a registration
+    whose callback cancels its own context while the call returns, and holds the call to the outcome it reported)"""
+    f = line.split()
+    if f[0] == "reg" and len(f) == 3 and f[2] == "self":
+        return line
+    return dl(line)
+
+
 def explore(ctx, art):
     rng = random.Random(ctx.seed)
     thorough = ctx.tier == "thorough"
@@ -161,7 +173,7 @@ def explore(ctx, art):
     model = judge = None
     if art.get("driver"):
         rc, model, _ = common.pipe_lines([art["driver"], "model"], [dl(l) for l in lines])
-        jl = [dl(l) if l.split()[0] in ("cfg", "valid", "end") else dl(l) + " | " + o for l, o in zip(lines, impl)]
+        jl = [dl(l) if l.split()[0] in ("cfg", "valid", "end") else jl_line(l) + " | " + o for l, o in zip(lines, impl)]
         rc2, judge, _ = common.pipe_lines([art["driver"], "judge"], jl)
         if rc or rc2 or len(model) != len(lines) or len(judge) != len(lines):
             ctx.broken.append(("model", "C08 driver run failed", ""))
@@ -187,7 +199,7 @@ def explore(ctx, art):
         ci = owner[i]
         if judge is not None and judge[i] != "ok":
             bad.setdefault(ci, (i, "%s: observed `%s`: %s" % (l, o, judge[i])))
-        if model is not None and canon(model[i]) != canon(o):
+        if model is not None and canon(model[i]) != canon(o) and "callback-cancels-own-context" not in cases[ci][1]:
             mism += 1
             if mism <= 3:
                 ctx.broken.append(("correspondence", "C08 model vs implementation", "case %d line `%s`: impl `%s` model `%s`" % (ci, l, o, model[i])))
@@ -232,7 +244,7 @@ def replay(ctx, rep):
         print("replay file names no failing input:", rep.get("no_longer_checks"))
         return 1
     impl = common.run_test_harness(ctx, art["test"], "TestC08", lines, tag="replay")
-    jl = [dl(l) if l.split()[0] in ("cfg", "valid", "end") else dl(l) + " | " + o for l, o in zip(lines, impl)]
+    jl = [dl(l) if l.split()[0] in ("cfg", "valid", "end") else jl_line(l) + " | " + o for l, o in zip(lines, impl)]
     rc, judge, _ = common.pipe_lines([art["driver"], "judge"], jl)
     bad = 0
     for l, o, j in zip(lines, impl, judge):
